@@ -19,8 +19,7 @@ import z3
 from jax import random as jr
 
 from jaxsmt import concrete, solve, stubs
-from jaxsmt.core import conj, disj, eq_arr, eq_elem, implies, neg
-from jaxsmt.interp import Interp
+from jaxsmt.core import conj, eq_arr, eq_elem, implies, neg
 from jaxsmt.remq import RemInterp
 from jaxsmt.ops import isconc
 from jaxsmt.trace import trace
